@@ -244,6 +244,9 @@ def replay(path: Path) -> int:
             scn = scn_from_json(c)
             _, info = ch.run_real(scn)
             fails = bool(oracle_rr(scn, info) if scn.sched == "rr" else oracle_rl(scn, info))
+            if getattr(scn, "slow_policy_calls", ()) and len(scn.ops) == 2:
+                a, b = scn.ops[0][1], scn.ops[1][1]
+                fails = fails or info["actions"] != scn.actions[0:a - 1] + scn.actions[a:a + b]
         print("REPLAY", fi["what"][:120], "->", "still fails" if fails else "passes now")
         bad += fails
     return 1 if bad else 0
